@@ -1429,3 +1429,17 @@ TABLE["C17"] += [
     B("argument-less-methods-skip-the-filter", {"Q5"},
       (XP, "        member_defs = []\n\n        # Optional parameters we should ignore", "        member_defs = []\n        if not method_args_names:\n            return list(maybe_member_defs), []\n\n        # Optional parameters we should ignore")),
 ]
+TABLE["C17"] += [
+    B("any-argument-count-between-required-and-total", {"Q5"},
+      (XP, "            if len(method_args_names) != num_req_params and len(\n                    method_args_names) != num_tot_params:", "            if not num_req_params <= len(method_args_names) <= num_tot_params:")),
+    N("arity-filter-as-a-membership-test",
+      (XP, "            if len(method_args_names) != num_req_params and len(\n                    method_args_names) != num_tot_params:", "            if len(method_args_names) not in (num_req_params, num_tot_params):")),
+    B("high-hex-escapes-written-as-octal-bytes", {"Q1"},
+      (PW, "            return '\\\\%03o' % code if code < 0x80 else '\\\\u%04x' % code", "            return '\\\\%03o' % code")),
+]
+TABLE["C10"] += [
+    B("constructor-names-the-base-through-the-type-formatter", {"T13"},
+      (MW, "            parent_name = \".\".join(\n                [ns for ns in parent_name.namespaces if ns] + [\n                    self._format_type_name(parent_name,\n                                           separator=\".\",\n                                           include_namespace=False)\n                ])", "            parent_name = self._format_type_name(parent_name, separator=\".\")")),
+    B("namespace-without-classes-returns-before-its-functions", {"T14"},
+      (MW, "        if inner_namespace:\n            self.content.append(inner_namespace_scope)\n", "        if inner_namespace:\n            if not inner_namespace_scope:\n                return wrapped\n            self.content.append(inner_namespace_scope)\n")),
+]
